@@ -144,15 +144,34 @@ PROBE_STRUCTS = ["pdu_header", "pdu_cache_response", "pdu_serial_notify", "pdu_s
                  "pdu_error", "pdu_router_key", "pdu_reset_query", "pdu_end_of_data_v0", "pdu_end_of_data_v1"]
 
 
+_RECORD_FIELDS = {}
+
+
+def record_fields(cfile, tyname):
+    """field names of `struct tyname` in declaration order (from clang's AST)"""
+    if (cfile, tyname) not in _RECORD_FIELDS:
+        fields = None
+        for d in ast_docs(cfile, tyname):
+            if d.get("kind") == "RecordDecl" and d.get("name") == tyname:
+                fs = [c["name"] for c in inner(d) if c.get("kind") == "FieldDecl"]
+                if fs:
+                    fields = fs
+        _RECORD_FIELDS[(cfile, tyname)] = fields
+    return _RECORD_FIELDS[(cfile, tyname)]
+
+
 def run_probe():
     src = os.path.join(vlib.BUILD, "probe.c")
     os.makedirs(vlib.BUILD, exist_ok=True)
     with open(src, "w") as f:
-        f.write('#include "rtrlib/rtr/packets.c"\n#include "third-party/tommyds/tommyhashlin.h"\n#include <stdio.h>\nint main(void){\n')
+        f.write('#include "rtrlib/rtr/packets.c"\n#include "third-party/tommyds/tommyhashlin.h"\n#include <stdio.h>\n#include <stddef.h>\nint main(void){\n')
         for m in PROBE_MACROS:
             f.write(' printf("M %s %%lld\\n", (long long)(%s));\n' % (m, m))
         for s in PROBE_STRUCTS:
             f.write(' printf("S %s %%lld\\n", (long long)sizeof(struct %s));\n' % (s, s))
+        for sname in PROBE_STRUCTS:
+            for fld in record_fields("rtrlib/rtr/packets.c", sname) or []:
+                f.write(' printf("O %s.%s %%lld\\n", (long long)offsetof(struct %s, %s));\n' % (sname, fld, sname, fld))
         f.write(' { unsigned x = 1; printf("E little_endian %d\\n", (int)*(unsigned char*)&x); }\n return 0; }\n')
     exe = vlib.build_harness("probe", src, includes_repo_c=("rtrlib/rtr/packets.c",), opt="-O0")
     rc, out = vlib.sh([exe], timeout=60)
@@ -212,6 +231,7 @@ class Tr:
         self.struct_locals = set()
         self.locals = set()
         self.fresh = 0
+        self.break_k = []         # continuations of the enclosing switch statements (what `break` jumps to)
 
     # -- types -------------------------------------------------------------
     def ty(self, n):
@@ -633,6 +653,7 @@ class Tr:
                 return self.stmts(out, nxt)
             xv = "sw__%d" % self.fresh
             self.fresh += 1
+            self.break_k.append(nxt)
             term, default_pos = None, None
             arms = []
             for p, it in enumerate(items):
@@ -646,9 +667,13 @@ class Tr:
             term = tail
             for val, p in reversed(arms):
                 term = "if (%s =? %s)\nthen (%s)\nelse (%s)" % (xv, val, from_pos(p), term)
+            self.break_k.pop()
             return self.guarded(g, "let %s := %s in\n%s" % (xv, tx, term))
         if kind == "BreakStmt":
-            raise Untranslatable("break outside the handled switch shape")
+            # a break nested in an `if` of a switch arm: continue after the switch (rest of the arm is dropped)
+            if self.break_k:
+                return self.break_k[-1]()
+            raise Untranslatable("break outside a switch")
         # expression statements
         if self.is_assert(s):
             c = self.assert_cond(s)
@@ -770,6 +795,276 @@ class Tr:
         term = self.stmts([body], lambda: self.ret(None) if self.result_kind == "store" else "None (* falls off the end *)")
         return "Definition %s_gen %s : option %s :=\n%s.\n" % (fn["name"], " ".join(sig), rty, term), \
                ([("store" if p["name"] in self.ptr_params else "Z") for p in params], self.result_kind)
+
+
+# ---------------------------------------------------------------------------
+# memory mode: functions that read a byte buffer through pointers (Base/Mem.v)
+# ---------------------------------------------------------------------------
+# All pointer parameters and pointer locals of such a function point into ONE memory object `mem : list Z`
+# (the bytes as they lie in memory); a pointer is `option Z` (offset, None = NULL).  Every load becomes
+# `ldu / lds mem p size` under the guard `ld_ok mem p size` - a load outside the object, or through NULL, makes the
+# translated function return None.  ntohl / htonl / ntohs / htons are byte swaps (little-endian host, checked by the
+# probe).  Arguments of the debug printers are not evaluated (they have no side effects).  No stores.
+BSWAP = {"ntohl": "bswap32", "htonl": "bswap32", "ntohs": "bswap16", "htons": "bswap16",
+         "__bswap_32": "bswap32", "__bswap_16": "bswap16", "__builtin_bswap32": "bswap32", "__builtin_bswap16": "bswap16"}
+
+
+def is_ptr_type(q):
+    return bool(q) and q.replace("const", "").rstrip().endswith("*")
+
+
+def pointee(q):
+    return re.sub(r"\s*\*\s*(?:const\s*)?$", "", q.replace("const ", "")).strip()
+
+
+class TrMem(Tr):
+    def __init__(self, *a, **kw):
+        Tr.__init__(self, *a, **kw)
+        self.ptr_locals = set()
+
+    def qt(self, n):
+        t = n.get("type") or {}
+        return t.get("desugaredQualType") or t.get("qualType", "")
+
+    def elem_size(self, q):
+        """size in bytes of what a pointer of type q points to (for pointer arithmetic)"""
+        e = pointee(q)
+        if e == "void":
+            return 1            # GNU C
+        it = int_type(e)
+        if it:
+            return max(8, it[0]) // 8
+        m = re.fullmatch(r"struct (\w+)", e)
+        if m and ("S", m.group(1)) in self.sizes:
+            return self.sizes[("S", m.group(1))]
+        raise Untranslatable("pointer arithmetic on " + q)
+
+    def field_offset(self, n):
+        """offset of the member named by MemberExpr n inside its struct"""
+        base = inner(n)[0]
+        bq = self.qt(base)
+        sname = re.sub(r"^struct\s+", "", pointee(bq) if n.get("isArrow") else bq.replace("const ", "").strip())
+        key = ("O", "%s.%s" % (sname, n.get("name")))
+        if key not in self.sizes:
+            raise Untranslatable("no offset for %s.%s" % (sname, n.get("name")))
+        return "offsetof_%s__%s" % (sname, n.get("name"))
+
+    def pexpr(self, n):
+        """pointer-typed expression -> (guards, term : option Z)"""
+        k = n.get("kind")
+        if k in ("ParenExpr", "ConstantExpr"):
+            return self.pexpr(inner(n)[0])
+        if k in ("ImplicitCastExpr", "CStyleCastExpr"):
+            ck = n.get("castKind")
+            if ck == "NullToPointer":
+                return [], "(@None Z)"
+            if ck in ("BitCast", "NoOp", "LValueToRValue"):
+                return self.pexpr(inner(n)[0])
+            if ck == "ArrayToPointerDecay":
+                return self.paddr(inner(n)[0])
+            raise Untranslatable("pointer cast " + str(ck))
+        if k == "DeclRefExpr":
+            nm = n["referencedDecl"]["name"]
+            if nm in self.ptr_locals:
+                return [], gname(nm)
+            raise Untranslatable("pointer " + nm)
+        if k == "BinaryOperator" and n.get("opcode") in ("+", "-"):
+            a, b = inner(n)
+            if not is_ptr_type(self.qt(a)):
+                if n["opcode"] == "-":
+                    raise Untranslatable("integer - pointer")
+                a, b = b, a
+            ga, ta = self.pexpr(a)
+            gb, tb = self.expr(b)
+            sz = self.elem_size(self.qt(a))
+            d = tb if sz == 1 else "(%s * %d)" % (tb, sz)
+            if n["opcode"] == "-":
+                d = "(- %s)" % d
+            return ga + gb, "(ptr_add %s %s)" % (ta, d)
+        if k == "UnaryOperator" and n.get("opcode") == "&":
+            return self.paddr(inner(n)[0])
+        raise Untranslatable("pointer expression " + str(k))
+
+    def paddr(self, n):
+        """address of the lvalue n -> (guards, term : option Z)"""
+        k = n.get("kind")
+        if k == "ParenExpr":
+            return self.paddr(inner(n)[0])
+        if k == "MemberExpr":
+            base = inner(n)[0]
+            if n.get("isArrow"):
+                g, t = self.pexpr(base)
+            else:
+                g, t = self.paddr(base)
+            return g, "(ptr_add %s %s)" % (t, self.field_offset(n))
+        if k == "UnaryOperator" and n.get("opcode") == "*":
+            return self.pexpr(inner(n)[0])
+        if k == "ArraySubscriptExpr":
+            a, i = inner(n)
+            ga, ta = self.pexpr(a)
+            gi, ti = self.expr(i)
+            sz = self.elem_size(self.qt(a))
+            return ga + gi, "(ptr_add %s %s)" % (ta, ti if sz == 1 else "(%s * %d)" % (ti, sz))
+        raise Untranslatable("address of " + str(k))
+
+    def load(self, lv, node):
+        """rvalue of the lvalue lv (type taken from node)"""
+        t = self.ty(node)
+        if t is None:
+            raise Untranslatable("load of non-integer " + self.qt(node))
+        g, p = self.paddr(lv)
+        size = max(8, t[0]) // 8
+        return g + ["(ld_ok mem %s %d)" % (p, size)], "(%s mem %s %d)" % ("lds" if t[1] else "ldu", p, size)
+
+    def through_pointer(self, lv):
+        k = lv.get("kind")
+        if k == "ParenExpr":
+            return self.through_pointer(inner(lv)[0])
+        if k == "MemberExpr":
+            return bool(lv.get("isArrow")) or self.through_pointer(inner(lv)[0])
+        if k == "UnaryOperator" and lv.get("opcode") == "*":
+            return True
+        if k == "ArraySubscriptExpr":
+            return is_ptr_type(self.qt(inner(lv)[0]))
+        return False
+
+    def expr(self, n):
+        k = n.get("kind")
+        if k in ("ImplicitCastExpr", "CStyleCastExpr") and n.get("castKind") == "LValueToRValue":
+            sub = inner(n)[0]
+            if self.through_pointer(sub):
+                return self.load(sub, n)
+        if k in ("MemberExpr", "ArraySubscriptExpr") and self.through_pointer(n):
+            return self.load(n, n)
+        if k == "UnaryOperator" and n.get("opcode") == "*":
+            return self.load(n, n)
+        if k == "CallExpr" and self.callee(n) in BSWAP:
+            g, t = self.expr(inner(n)[1])
+            return g, "(%s %s)" % (BSWAP[self.callee(n)], t)
+        return Tr.expr(self, n)
+
+    def call_term(self, n):
+        name = self.callee(n)
+        if name in BSWAP:
+            g, t = self.expr(n)
+            return g, "(Some %s)" % t
+        if name not in self.known or self.known[name][1] != "mem":
+            raise Untranslatable("call to " + str(name))
+        g, ts = [], []
+        for a, kind in zip(inner(n)[1:], self.known[name][0]):
+            ga, ta = self.pexpr(a) if kind == "ptr" else self.expr(a)
+            g += ga
+            ts.append(ta)
+        return g, "(%s_gen mem %s)" % (name, " ".join(ts))
+
+    def stmts(self, lst, k):
+        if lst:
+            s, rest = lst[0], lst[1:]
+            nxt = lambda: self.stmts(rest, k)  # noqa: E731
+            kind = s.get("kind")
+            if kind == "DeclStmt" and any(is_ptr_type(self.qt(d)) for d in inner(s) if d.get("kind") == "VarDecl"):
+                ds = inner(s)
+                if len(ds) != 1:
+                    raise Untranslatable("several declarators with a pointer")
+                d = ds[0]
+                self.locals.add(d["name"])
+                self.ptr_locals.add(d["name"])
+                if inner(d):
+                    g, t = self.pexpr(inner(d)[0])
+                else:
+                    g, t = [], "(@None Z)"      # uninitialised: any use is undefined, NULL makes every load fail
+                return self.guarded(g, "let %s := %s in\n%s" % (gname(d["name"]), t, nxt()))
+            if kind == "BinaryOperator" and s.get("opcode") == "=" and is_ptr_type(self.qt(s)):
+                lhs, rhs = inner(s)
+                while lhs.get("kind") == "ParenExpr":
+                    lhs = inner(lhs)[0]
+                if lhs.get("kind") != "DeclRefExpr" or lhs["referencedDecl"]["name"] not in self.ptr_locals:
+                    raise Untranslatable("store of a pointer")
+                g, t = self.pexpr(rhs)
+                return self.guarded(g, "let %s := %s in\n%s" % (gname(lhs["referencedDecl"]["name"]), t, nxt()))
+            if kind in ("BinaryOperator", "CompoundAssignOperator") and s.get("opcode", "").endswith("=") \
+                    and s["opcode"] not in ("==", "!=", "<=", ">=") and self.through_pointer(inner(s)[0]):
+                raise Untranslatable("store through a pointer")
+        return Tr.stmts(self, lst, k)
+
+    def function(self, mutates=False):
+        fn = self.fn
+        params = [c for c in inner(fn) if c.get("kind") == "ParmVarDecl"]
+        body = [c for c in inner(fn) if c.get("kind") == "CompoundStmt"][0]
+        sig, kinds = ["(mem : list Z)"], []
+        for p in params:
+            self.locals.add(p["name"])
+            q = p["type"].get("desugaredQualType", p["type"]["qualType"])
+            if int_type(q) or int_type(p["type"]["qualType"]):
+                sig.append("(%s : Z)" % gname(p["name"]))
+                kinds.append("Z")
+            elif is_ptr_type(q):
+                sig.append("(%s : option Z)" % gname(p["name"]))
+                self.ptr_locals.add(p["name"])
+                kinds.append("ptr")
+            else:
+                raise Untranslatable("parameter type " + q)
+        rq = fn["type"]["qualType"].split("(")[0].strip()
+        if not int_type(rq):
+            raise Untranslatable("return type " + rq)
+        self.result_kind = "Z"
+        self.rq = rq
+        term = self.stmts([body], lambda: "None (* falls off the end *)")
+        return "Definition %s_gen %s : option Z :=\n%s.\n" % (fn["name"], " ".join(sig), term), (kinds, "mem")
+
+    def ret(self, term):
+        # the value is converted to the function's return type
+        t = int_type(self.rq)
+        if t[0] == 1:
+            return "Some (b2z (z2b %s))" % term
+        return "Some (%s %d %s)" % ("wraps" if t[1] else "wrapu", t[0], term)
+
+
+MEM_LEAFS = [
+    ("rtrlib/rtr/packets.c", "rtr_get_pdu_type"),
+    ("rtrlib/rtr/packets.c", "rtr_pdu_check_size"),
+]
+MEM_OUT = os.path.join(vlib.THEORIES, "Gen", "GeneratedMem.v")
+
+
+def generate_mem():
+    """text of Gen/GeneratedMem.v"""
+    out, problems = [], []
+    w = out.append
+    w("(* GENERATED by tools/c2v.py (memory mode) from the repository sources - do not edit. *)")
+    w("From RtrV Require Import Base.CSem Base.Mem Gen.Generated.")
+    w("Local Open Scope string_scope.\nLocal Open Scope Z_scope.\n")
+    enums_all = {}
+    for cfile, en in ENUMS:
+        try:
+            for n, v in enum_values(cfile, en):
+                enums_all.setdefault(n, v)
+        except Exception as e:  # noqa: BLE001
+            problems.append("enum %s: %s" % (en, e))
+    try:
+        sizes = run_probe()
+    except Exception as e:  # noqa: BLE001
+        problems.append("probe: %s" % e)
+        sizes = {}
+    if sizes.get(("E", "little_endian")) != 1:
+        problems.append("host is not little-endian: loads are not modelled")
+    known = {}
+    for cfile, fname in MEM_LEAFS:
+        try:
+            fn = find_def(cfile, fname)
+            if fn is None:
+                raise Untranslatable("definition not found")
+            tr = TrMem(fn, known, enums_all, sizes, {})
+            text, sig = tr.function()
+            known[fname] = sig
+            w("(* %s : %s *)" % (cfile, fname))
+            w(text)
+        except Exception as e:  # noqa: BLE001
+            problems.append("function %s: %s" % (fname, e))
+            w("(* %s could not be translated: %s *)" % (fname, str(e).replace("*)", "* )")))
+            w("Definition %s_untranslated := tt.\n" % fname)
+    w("Definition mem_translator_problems : list string := [%s]." % "; ".join(coq_string(p[:200]) for p in problems))
+    return "\n".join(out) + "\n", problems
 
 
 # ---------------------------------------------------------------------------
@@ -1580,6 +1875,8 @@ def generate():
             w("Definition c_%s : Z := %d." % (n, v))
         elif k == "S":
             w("Definition sizeof_%s : Z := %d." % (n, v))
+        elif k == "O":
+            w("Definition offsetof_%s : Z := %d." % (n.replace(".", "__"), v))
         else:
             w("Definition host_%s : Z := %d." % (n, v))
     w("")
@@ -1651,7 +1948,9 @@ def main():
     write_if_changed(OUT, text, "Generated.v")
     stext, sproblems = generate_skeletons()
     write_if_changed(SKEL_OUT, stext, "LockSkeletons.v")
-    for p in problems + sproblems:
+    mtext, mproblems = generate_mem()
+    write_if_changed(MEM_OUT, mtext, "GeneratedMem.v")
+    for p in problems + sproblems + mproblems:
         print("c2v: problem:", p)
     return 0
 
